@@ -137,6 +137,19 @@ def run(chk):
                                              for n in own_nodes(f.node) if isinstance(n, ast.stmt)),
               "R3", f"{NMT}:NmtMaster.send_command | code unchanged", f.loc(), "parameter `code` is reassigned before sending")
 
+    # master and slave both apply the command to their own state (through NmtBase.send_command) on every normal path
+    for cname in ("NmtMaster", "NmtSlave"):
+        fx = repo.func(NMT, f"{cname}.send_command", "C11.R3")
+        fxx = ff_for(chk, fx, "C11.R3")
+        forms = {f"super({cname}, self).send_command(code)", "super().send_command(code)", "NmtBase.send_command(self, code)"}
+
+        def applies(n, forms=forms):
+            return n.ast is not None and n.kind == "stmt" and (any(isinstance(x, ast.Call) and src(x) in forms for x in ast.walk(n.ast))
+                                                              or (isinstance(n.ast, ast.Assign) and src(n.ast) == "self._state = COMMAND_TO_STATE[code]"))
+        wit = must_pass(fxx.cfg, applies)
+        chk.check(wit is None, "R3", f"{NMT}:{cname}.send_command | own state follows the command", fx.loc(),
+                  f"a normal path does not apply the command to the object's own state (NmtBase.send_command is not reached): {path_text(wit) if wit else ''}")
+
     # slave boot-up
     f = repo.func(NMT, "NmtSlave.send_command", "C11.R3")
     ff = ff_for(chk, f, "C11.R3")
